@@ -15,6 +15,12 @@ for seed in "$@"; do
   for m in $(cat /w/out/gomods.txt); do
     n=$(echo "$m" | tr '/.' '__')
     (cd "$wt/$m" && go test -json -vet=off -count=1 -timeout 25m ./... > "$out/$n.json" 2>"$out/$n.err")
+    # the suite has a few load-sensitive tests (1 ms deadlines, a 100 us context): a module with a failure or a
+    # time-out is run a second time and a test counts as passing if it passed in either run (BASELINE's stable_pass
+    # was itself established over several runs)
+    if grep -q '"Action":"fail"' "$out/$n.json"; then
+      (cd "$wt/$m" && go test -json -vet=off -count=1 -timeout 25m ./... > "$out/${n}_retry.json" 2>"$out/${n}_retry.err")
+    fi
   done
   python3 - "$out" "$seed" <<'PY'
 import json,sys,glob
@@ -35,7 +41,7 @@ missing=sorted(stable-passed)
 print("SUITE %s: stable_pass=%d passed=%d not_passed=%d %s"%(seed,len(stable),len(stable&passed),len(missing),missing[:6]))
 m=json.load(open(seed+'/meta.json'))
 m['suite_with_patch']={"stable_pass":len(stable),"passed":len(stable&passed),"not_passed":missing[:20],
-  "how":"tools/seed_suite.sh: scratch worktree of /repo HEAD + patch.diff, go test -json -vet=off -count=1 ./... in every module, compared with BASELINE stable_pass"}
+  "how":"tools/seed_suite.sh: scratch worktree of /repo HEAD + patch.diff, go test -json -vet=off -count=1 ./... in every module (a module with a failure is run once more: load-sensitive tests), compared with BASELINE stable_pass"}
 json.dump(m,open(seed+'/meta.json','w'),indent=1)
 PY
   git -C /repo worktree remove --force "$wt"; rm -rf "$out"
